@@ -11,7 +11,7 @@ impl Check for C01 {
         "C01"
     }
     fn cases(&self, tier: Tier) -> u64 {
-        tier.pick(120_000, 6_000_000)
+        tier.pick(120_000, 15_000_000)
     }
     fn run(&self, ctx: &Ctx, idx: u64, rec: &mut Recorder) {
         book::run_book_case("C01", bookgen::P_BALANCE, ctx, idx, rec);
@@ -37,6 +37,6 @@ impl Check for C01 {
         ]
     }
     fn min_nontrivial(&self, tier: Tier) -> u64 {
-        tier.pick(50_000, 2_000_000)
+        tier.pick(50_000, 4_000_000)
     }
 }
